@@ -205,6 +205,53 @@ def hoist_guard_clauses(root: str, files: List[str] = None):
         _rewrite(root, rel, lambda t, s_: T().visit(t))
 
 
+def nest_ands(root: str, files: List[str] = None):
+    """`if a and b: X` without an else becomes `if a: if b: X` (same evaluation order, same short-circuit)."""
+    class T(ast.NodeTransformer):
+        def visit_If(self, node):
+            self.generic_visit(node)
+            if isinstance(node.test, ast.BoolOp) and isinstance(node.test.op, ast.And) and not node.orelse:
+                vals = node.test.values
+                inner = ast.If(test=vals[-1] if len(vals) == 2 else ast.BoolOp(op=ast.And(), values=vals[1:]), body=node.body, orelse=[])
+                return ast.copy_location(ast.If(test=vals[0], body=[inner], orelse=[]), node)
+            return node
+    for rel in files or ENGINE_FILES:
+        _rewrite(root, rel, lambda t, s_: ast.fix_missing_locations(T().visit(t)))
+
+
+def explain_conditions(root: str, files: List[str] = None):
+    """`if <compound test>:` (a plain `if`, not an `elif`) becomes `cond_N = <compound test>` + `if cond_N:` - an explaining variable, evaluated at the same point."""
+    class T(ast.NodeTransformer):
+        def __init__(self):
+            self.n = 0
+
+        def _block(self, stmts):
+            out = []
+            for st in stmts:
+                st = self.visit(st)
+                if isinstance(st, ast.If) and isinstance(st.test, (ast.BoolOp, ast.Compare)) and not any(isinstance(x, (ast.NamedExpr, ast.Await, ast.Yield)) for x in ast.walk(st.test)):
+                    self.n += 1
+                    name = "cond_x%d" % self.n
+                    out.append(ast.copy_location(ast.Assign(targets=[ast.Name(id=name, ctx=ast.Store())], value=st.test), st))
+                    st.test = ast.copy_location(ast.Name(id=name, ctx=ast.Load()), st)
+                out.append(st)
+            return out
+
+        def generic_visit(self, node):
+            for field in ("body", "orelse", "finalbody"):
+                v = getattr(node, field, None)
+                if isinstance(v, list) and v and isinstance(v[0], ast.stmt):
+                    if field == "orelse" and isinstance(node, ast.If) and len(v) == 1 and isinstance(v[0], ast.If):
+                        v[0] = self.visit(v[0])      # an elif: its test must stay where it is
+                    else:
+                        setattr(node, field, self._block(v))
+            for h in getattr(node, "handlers", []) or []:
+                h.body = self._block(h.body)
+            return node
+    for rel in files or ENGINE_FILES:
+        _rewrite(root, rel, lambda t, s_: ast.fix_missing_locations(T().visit(t)))
+
+
 GENERIC_BENIGN = {
     "de-morgan": de_morgan,
     "guard-clauses": hoist_guard_clauses,
@@ -214,4 +261,6 @@ GENERIC_BENIGN = {
     "rename-locals": rename_locals,
     "negate-if-else": negate_if_else,
     "swap-eq-operands": swap_commutative,
+    "nest-ands": nest_ands,
+    "explain-conditions": explain_conditions,
 }
